@@ -591,11 +591,24 @@ _ISET = []
 for _m in [
     {'py': '_add_dead', 'name': 'add_dead', 'params': {'start': 'Int', 'stop': 'Option Int'}, 'result': 'None',
      'tie_theorem': 'C11.src_add_dead_eq_model'},
+    {'py': '_dead_index_count', 'name': 'dead_index_count', 'params': {}, 'result': 'Int', 'property': True,
+     'tie_theorem': 'C11.src_dead_index_count_eq_model'},
+    {'py': '__len__', 'name': 'len', 'params': {}, 'result': 'Int', 'tie_theorem': 'C11.src_len_eq_model'},
+    {'py': 'add', 'name': 'add', 'params': {'item': 'Key'}, 'result': 'None', 'tie_theorem': 'C11.src_add_eq_model'},
+    {'py': '_compact', 'name': 'compact', 'params': {}, 'result': 'None', 'tie_theorem': 'C11.src_compact_eq_model'},
+    {'py': '_cull', 'name': 'cull', 'params': {}, 'result': 'None', 'tie_theorem': 'C11.src_cull_eq_model'},
+    {'py': 'remove', 'name': 'remove', 'params': {'item': 'Key'}, 'result': 'None',
+     'tie_theorem': 'C11.src_remove_eq_model'},
+    {'py': 'discard', 'name': 'discard', 'params': {'item': 'Key'}, 'result': 'None',
+     'tie_theorem': 'C11.src_discard_eq_model'},
 ]:
     _sp = dict(_m, module='boltons.setutils', cls=INDEXED_SET, method=True, translator='py2lean_c11',
                gen_file='setutils_iset', qualname='IndexedSet.' + _m['py'], lean_name='IndexedSet.' + _m['name'],
                kind='function', raises=True)
     del _sp['name']
     _ISET.append(_sp)
+# only the methods whose tie theorem exists are registered (callees come before their callers)
+_ISET_TIED = ('_add_dead', '_dead_index_count', '__len__', 'add', '_compact')
+_ISET = [_sp for _sp in _ISET if _sp['py'] in _ISET_TIED]
 INDEXED_SET['methods'] = _ISET
 SPECS['C11'] = SPECS['C11'] + _ISET
